@@ -1,0 +1,75 @@
+//go:build verif
+
+package engine
+
+// Contracts for the Engine.IO server and session (comment-only; read by /verif/govc).
+
+// ---- C05: the documented error table (README.md, "connection_error") -------------------------------
+//@ func init()
+//@   props C05
+//@   modifies *
+//@   ensures [C05.tab0] UNKNOWN_TRANSPORT.Code == 0 && UNKNOWN_TRANSPORT.Message == "Transport unknown"
+//@   ensures [C05.tab1] UNKNOWN_SID.Code == 1 && UNKNOWN_SID.Message == "Session ID unknown"
+//@   ensures [C05.tab2] BAD_HANDSHAKE_METHOD.Code == 2 && BAD_HANDSHAKE_METHOD.Message == "Bad handshake method"
+//@   ensures [C05.tab3] BAD_REQUEST.Code == 3 && BAD_REQUEST.Message == "Bad request"
+//@   ensures [C05.tab4] FORBIDDEN.Code == 4 && FORBIDDEN.Message == "Forbidden"
+//@   ensures [C05.tab5] UNSUPPORTED_PROTOCOL_VERSION.Code == 5 && UNSUPPORTED_PROTOCOL_VERSION.Message == "Unsupported protocol version"
+//@   ensures [C05.tabdistinct] UNKNOWN_TRANSPORT != UNKNOWN_SID && UNKNOWN_SID != BAD_HANDSHAKE_METHOD && BAD_REQUEST != FORBIDDEN && FORBIDDEN != UNSUPPORTED_PROTOCOL_VERSION && BAD_REQUEST != UNSUPPORTED_PROTOCOL_VERSION
+
+// ---- C05: the engine path -------------------------------------------------------------------------------
+// default "/engine.io" followed by "/" unless the attach options explicitly disable the trailing slash;
+// a configured path is taken with its trailing slashes removed.
+//@ func (*baseServer).ComputePath(options)
+//@   props C05
+//@   modifies nothing
+//@   let base  = options != nil && options.GetRawPath() != nil ? uf_s_TrimRight(options.Path(), "/") : "/engine.io"
+//@   let slash = options == nil || options.GetRawAddTrailingSlash() == nil || options.AddTrailingSlash()
+//@   ensures [C05.path] result == (slash ? concat(base, "/") : base)
+
+// ---- interfaces of this package, abstracted by ghost (model) fields ----------------------------------------
+//@ ghost field Socket.$transport transports.Transport
+//@ ghost field Socket.$rstate string
+//@ ghost field Socket.$upgrading bool
+//@ ghost field Socket.$upgraded bool
+
+//@ func Socket.Transport()
+//@   pure
+//@   ensures result == this.$transport
+//@   ensures result != nil   // data invariant of sessions: a transport is attached from Construct on (checked on setTransport)
+//@ func Socket.ReadyState()
+//@   pure
+//@   ensures result == this.$rstate
+//@ func Socket.Upgrading()
+//@   pure
+//@   ensures result == this.$upgrading
+//@ func Socket.Upgraded()
+//@   pure
+//@   ensures result == this.$upgraded
+
+// ---- C05: admission checks in their fixed precedence ------------------------------------------------------
+// transport known and enabled > Origin well-formed > session id known and bound to the same transport unless
+// upgrading > GET for handshakes > no plain-HTTP handshake for WebSocket > allow-request hook.
+//@ func (*baseServer).Verify(ctx, upgrade)
+//@   props C05, C04
+//@   requires bs != nil && ctx != nil && bs.opts != nil && bs.clients != nil && ctx.query != nil && ctx.headers != nil && ctx.query != ctx.headers
+//@   requires bs.opts.Transports() != nil && ctx.request != nil
+//@   dyncall allowRequest pure
+//@   modifies ctx.headers.$bagver, ctx.method
+//@   let method    = old(ctx.method) != "" ? old(ctx.method) : uf_s_ToUpper(old(ctx.request.Method))
+//@   let transport = uf_s_peek(ctx.query, "transport", ctx.query.$bagver)
+//@   let sid       = uf_s_peek(ctx.query, "sid", ctx.query.$bagver)
+//@   let origin    = uf_s_peek(ctx.headers, "Origin", old(ctx.headers.$bagver))
+//@   let tBad      = !uf_b_setHas(bs.opts.Transports(), transport, bs.opts.Transports().$setver) || transport == "webtransport"
+//@   let oBad      = uf_b_invalidHeaderChar(origin)
+//@   let known     = uf_b_mapHas(bs.clients, sid, bs.clients.$mapver)
+//@   let hasSid    = len(sid) > 0
+//@   ensures [C05.v.transport] tBad ==> result0 == UNKNOWN_TRANSPORT
+//@   ensures [C05.v.origin]    !tBad && oBad ==> result0 == BAD_REQUEST
+//@   ensures [C05.v.sid,C04.unknown] !tBad && !oBad && hasSid && !known ==> result0 == UNKNOWN_SID
+//@   ensures [C05.v.method]    !tBad && !oBad && !hasSid && method != "GET" ==> result0 == BAD_HANDSHAKE_METHOD
+//@   ensures [C05.v.wsplain]   !tBad && !oBad && !hasSid && method == "GET" && transport == "websocket" && !upgrade ==> result0 == BAD_REQUEST
+//@   ensures [C05.v.hook]      !tBad && !oBad && !hasSid && method == "GET" && !(transport == "websocket" && !upgrade) && bs.opts.AllowRequest() != nil ==> calls(allowRequest) == 1 && (ret(allowRequest, 1) != nil <==> result0 == FORBIDDEN) && (ret(allowRequest, 1) == nil ==> result0 == nil)
+//@   ensures [C05.v.nohook]    !tBad && !oBad && !hasSid && method == "GET" && !(transport == "websocket" && !upgrade) && bs.opts.AllowRequest() == nil ==> result0 == nil
+//@   ensures [C05.v.hookonly]  calls(allowRequest) == 1 ==> !tBad && !oBad && !hasSid && method == "GET"
+//@   ensures [C05.v.admit]     result0 == nil ==> !tBad && !oBad && (hasSid ==> known)
+//@   ensures [C05.v.codes]     result0 == nil || result0 == UNKNOWN_TRANSPORT || result0 == BAD_REQUEST || result0 == UNKNOWN_SID || result0 == BAD_HANDSHAKE_METHOD || result0 == FORBIDDEN
